@@ -78,6 +78,73 @@ def check_tiny(text, regs):
     return None
 
 
+def substr_corr(ctx, texts):
+    """the model's script with register values written in (substRScript, the object of
+    C08_transform_computes_written_formula) against the implementation: every transform of the loaded
+    program, applied to the values of its listed registers, gives the number the implementation loads from
+    the model's substituted text at the same argument position"""
+    import enc
+    import sx
+    from blackbird.listener import RegRefTransform
+    from props import c04
+    import re as _re
+    vals = {"q%d" % r: canon.POINTS[1](r) for r in range(0, 16)}
+    lines = []
+    for t in texts:
+        # every spelling of a register in the text (q08 is register 8) gets that register's value
+        spelled = {m: vals["q%d" % int(m[1:])] for m in set(_re.findall(r"\bq\d+\b", t)) if int(m[1:]) < 16}
+        lines.append("SUBSTR\t" + sx.hexs(t) + "\t" + sx.hexs(enc.enc_kw(spelled)))
+    outs = core.model_batch(lines)
+    for text, o in zip(texts, outs):
+        if o.startswith("(err") or o.startswith("bad"):
+            ctx.disagree("SUBSTR: model answers %s" % o[:60], {"kind": "correspondence", "cmd": "SUBSTR", "text": text})
+            continue
+        mtext = c04.tokens_to_text(o)
+        ia, oa = core.impl_canon_loads(text)
+        ib, ob = core.impl_canon_loads(mtext)
+        if ia[0] != "prog":
+            ctx.ood += 1
+            continue
+        if ib[0] != "prog":
+            if isinstance(ob, ZeroDivisionError) or "divide" in repr(ob) or "power" in repr(ob):
+                ctx.ood += 1
+                continue
+            ctx.disagree("SUBSTR: the script with register values written in is refused (%s %r)" % (ib[1:3], ob),
+                         {"kind": "correspondence", "cmd": "SUBSTR", "text": text, "model_text": mtext})
+            continue
+        bad = None
+        if len(oa.operations) != len(ob.operations):
+            bad = "%d operations vs %d" % (len(oa.operations), len(ob.operations))
+        else:
+            for k, (x, y) in enumerate(zip(oa.operations, ob.operations)):
+                xa = list(x.get("args", [])) + [x.get("kwargs", {})[key] for key in x.get("kwargs", {})]
+                ya = list(y.get("args", [])) + [y.get("kwargs", {}).get(key) for key in x.get("kwargs", {})]
+                if len(xa) != len(ya):
+                    bad = "operation %d: %d arguments vs %d" % (k, len(xa), len(ya))
+                    break
+                for u, v in zip(xa, ya):
+                    if isinstance(u, RegRefTransform):
+                        try:
+                            have = u.func(*[vals["q%d" % r] for r in u.regrefs])
+                        except ZeroDivisionError:
+                            continue
+                        if isinstance(v, RegRefTransform) or not isinstance(v, (int, float, complex, np.number)):
+                            bad = "operation %d: transform %s, but the text with values written in gives %r" % (k, u.func_str, v)
+                            break
+                        if not (np.isfinite(have) and np.isfinite(v)):
+                            continue
+                        if not canon.close(have, v, 1e-9, 1e-12):
+                            bad = "operation %d: transform %s gives %r, the written formula at the same values %r" % (
+                                k, u.func_str, have, v)
+                            break
+                if bad:
+                    break
+        if bad:
+            ctx.disagree("SUBSTR: " + bad, {"kind": "correspondence", "cmd": "SUBSTR", "text": text, "model_text": mtext})
+        else:
+            ctx.traces += 1
+
+
 def replay(ctx, data):
     if data.get("kind") == "tiny":
         return check_tiny(data["text"], data["regs"])
@@ -146,10 +213,13 @@ def run(ctx):
                 "oracle: regrefs = registers written (each once) and func(values in the listed order) = the written "
                 "formula at 3 points, 1e-9; expressions in which SymPy cancels a register are not generated; for-loops "
                 "whose body holds register expressions over the loop variable, compared with their unrolling statement by statement; model "
-                "LOADS vs implementation; non-trivial = at least two distinct registers in one argument; distinct "
+                "LOADS vs implementation; SUBSTR: the model's script with register values written in (substRScript) is "
+                "loaded by the implementation and every transform of the original program, applied to those values, "
+                "must give the number found at the same argument position; non-trivial = at least two distinct registers in one argument; distinct "
                 "by text. Hash-seed independence of the pairing is C19's sweep.")
     n = ctx.n(400, 6000)
     texts = []
+    rrt_texts = []
     for i in range(n):
         script, scope, cases = gen.gen_rrt_script(ctx.rng, {"depth": 2, "max_items": 5})
         text = gen.render(script)
@@ -160,6 +230,7 @@ def run(ctx):
             ctx.count("keyword" if kwpos else "positional")
         ctx.sample(text)
         texts.append(text)
+        rrt_texts.append(text)
         msg = find_rrt_cases(script, scope, cases, text)
         if msg:
             ctx.violation("register transform: " + msg, {"kind": "rrt", "script": script, "vals": scope.vals, "text": text})
@@ -184,3 +255,4 @@ def run(ctx):
         if msg:
             ctx.violation("register transform in a loop: " + msg, {"kind": "loop_rrt", "loop": loop, "unrolled": unrolled})
     common.loads_corr(ctx, texts, "LOADS(registers)")
+    substr_corr(ctx, rrt_texts)
